@@ -432,3 +432,22 @@ package ttlv
 // children left unread
 
 //@ ghostvar tapeDropped bool
+
+// ---------------------------------------------------------------------------
+// C17: looking a name up returns the number registered under exactly that name, and fails for every name
+// that is not registered (no folding, trimming or fuzzy matching between the name asked for and the key).
+
+//@ func EnumByName
+//@   ensures r1 == nil ==> mapok(enumsByName, tag) && mapok(mapget(enumsByName, tag), name) && r0 == mapget(mapget(enumsByName, tag), name)
+//@   ensures mapok(enumsByName, tag) && mapget(enumsByName, tag) != nil && mapok(mapget(enumsByName, tag), name) ==> r1 == nil
+//@   pure
+
+//@ func BitmaskByStr
+//@   ensures r1 == nil ==> mapok(bitmaskByName, tag) && mapok(mapget(bitmaskByName, tag), name) && r0 == mapget(mapget(bitmaskByName, tag), name)
+//@   ensures mapok(bitmaskByName, tag) && mapget(bitmaskByName, tag) != nil && mapok(mapget(bitmaskByName, tag), name) ==> r1 == nil
+//@   pure
+
+//@ func getTagByName
+//@   ensures r1 == nil ==> mapok(tagByName, name) && r0 == mapget(tagByName, name)
+//@   ensures mapok(tagByName, name) ==> r1 == nil
+//@   pure
